@@ -104,6 +104,7 @@ class QScal:
     qv_scalar = True
     qv_value = True
     __slots__ = ("c",)
+    mul_hook = None          # optional: Hamilton product kept as an uninterpreted function (only congruence is used by the proof)
     quotient_hook = None     # optional: right division as a named quotient y with the defining equation y * b == a (b != 0)
 
     def __init__(self, w, x=Fraction(0), y=Fraction(0), z=Fraction(0)):
@@ -153,6 +154,8 @@ class QScal:
         if is_reallike(o):
             return QScal(*[a * o for a in self.c])
         if isinstance(o, QScal):
+            if QScal.mul_hook is not None:
+                return QScal.mul_hook(self, o)
             from .spec import hamilton
             return QScal(*hamilton(list(self.c), list(o.c), lambda a, b: a * b))
         return NotImplemented
@@ -330,8 +333,16 @@ class IArr:
         if hcell:
             return IArr.whole(Store(tuple(shape), lambda idx: fn(tuple(idx))), hcell=True)
         if quat:
+            memo = {}
+
             def cell(idx):
-                q = fn(tuple(idx[:-1]))
+                k = _ikey(idx[:-1])
+                if k is not None and k in memo:
+                    q = memo[k]
+                else:
+                    q = fn(tuple(idx[:-1]))
+                    if k is not None:
+                        memo[k] = q
                 c = idx[-1]
                 if isinstance(c, int):
                     return q.c[c]
@@ -652,6 +663,8 @@ class IArr:
         cur().effects.append(("write", st, cur().where))
         st.written = True
 
+        memo = {}      # value of the right-hand side per view index (all four components of a quaternion share one evaluation)
+
         def new(idx):
             idx = tuple(as_int(i) for i in idx)
             conds = []
@@ -671,7 +684,13 @@ class IArr:
             c = sand(*conds) if conds else True
             if c is False:
                 return old(idx)
-            v = vfn(tuple(vidx))
+            k = _ikey(vidx)
+            if k is not None and k in memo:
+                v = memo[k]
+            else:
+                v = vfn(tuple(vidx))
+                if k is not None:
+                    memo[k] = v
             if tv.quat:
                 v = QScal.lift(v)
                 if isinstance(comp, int):
@@ -1143,6 +1162,19 @@ def _lift_operand(o):
     if isinstance(o, float):
         return _frac(o)
     return o
+
+
+def _ikey(idx):
+    """Hashable key of an index tuple (z3 terms are hash-consed: equal terms have equal ids); None if not keyable."""
+    out = []
+    for i in idx:
+        if i is None or isinstance(i, int):
+            out.append(i)
+        elif isinstance(i, SInt):
+            out.append(("z", i.z.get_id()))
+        else:
+            return None
+    return tuple(out)
 
 
 def _broadcast(a: IArr, b: IArr):
